@@ -63,7 +63,12 @@ class LinearChecker(DagWalker):
         the `set` of the `fluent_expressions` appearing with a positive sign in the expression
         and the `set` of the `fluent_expressions` appearing with a negative sign in the expression .
         """
-        return self.walk(self._simplifier.simplify(expression))
+        is_linear, positive_fluents, negative_fluents = self.walk(
+            self._simplifier.simplify(expression)
+        )
+        # the walk returns the memoized sets: give the caller its own copies, so
+        # that modifying the result does not alter the answers of later calls
+        return (is_linear, set(positive_fluents), set(negative_fluents))
 
     def _sign(self, expression: "up.model.fnode.FNode") -> Optional[bool]:
         """
